@@ -5,6 +5,8 @@ import json, subprocess
 CLAIMED = {
  "C01": ("exploration", "seeded simulation: a generated value is saved through a seeded output configuration (memory or simulated ostream with out-buffer size, 5 encodings, BOM, formatting, CSV separator) and loaded back through a seeded input configuration (memory or simulated istream: file/pipe, delivery sizes, chunk knobs); equality oracle against the generated value and load-save-load fixed point", "6 C01",
          "The configuration half is what the simulator owns; the value half is seeded sampling of DynNode trees (scalars of all widths, four string widths, byte containers, arrays, objects). Known findings KF-XML-EMPTY-CONTAINER, KF-CSV-EMPTY-TABLE, KF-JSON-BOMLESS-DETECT are avoided in 63 of 64 runs."),
+ "C02": ("exploration", "seeded simulation: storage-corruption faults (bit flips, set, truncate, duplicated/lost/garbage blocks, zeroed ranges, inflated length fields, nesting bombs, pure garbage) on a simulated file written by the real writer, delivered through memory and seeded stream entries (file/pipe, delivery sizes, chunk knobs) into same-shape, other-shape and std-container targets under both policies; oracle = only std::exception, no terminate/signal/sanitizer report, deterministic basic-block and stream-call budgets, allocator ledger bound", "6 C02",
+         "Loader half of the property; the string converters are only reached as a by-product (direct feed of corrupted cell texts, labelled input generation). malloc inside RapidJSON/pugixml is not faulted or metered. Stack: 8 MiB worker stack, documents <= 64 KiB."),
  "C10": ("exploration", "seeded simulation: differential memory-load vs stream-load of the same bytes under seeded delivery schedules of a simulated streambuf (file/pipe, 1..300 bytes per underflow), chunk-size knobs and storage-corruption faults; stream save vs memory save", "6 C10",
          "Samples the space of (document, corruption, delivery schedule, knob) tuples; the memory outcome is the specification, so an error shared by both readers is invisible. Trusted: libstdc++ iostreams, RapidJSON, pugixml, the harness models."),
 }
@@ -21,7 +23,7 @@ NA = {
  "C16": "pure number<->text conversion",
  "C17": "pure function of (document, validators, maxValidationErrors); the error map lives and dies inside one call",
 }
-PENDING = {k: 'claimed in DESIGN.md; its check is still under construction in this session and is not registered until it runs clean' for k in ['C02','C03','C05','C13','C18','C19','C20']}
+PENDING = {k: 'claimed in DESIGN.md; its check is still under construction in this session and is not registered until it runs clean' for k in ['C03','C05','C13','C18','C19','C20']}
 
 def main():
     commits = subprocess.run(["git", "-C", "/repo", "log", "--format=%H %s"], stdout=subprocess.PIPE, text=True).stdout.splitlines()
